@@ -193,6 +193,45 @@ where
         self.finished_data_bufs.push(buf.payload);
     }
 
+    /// Verification hook (only compiled with `--cfg etherparse_verif`): read-only,
+    /// deterministic (sorted) view of the pool state. Used by the model checking
+    /// harness in /verif to build a canonical state key and to observe that
+    /// completed or evicted streams release their state.
+    ///
+    /// Returns `(active streams as (Debug of id, ip number, data, sections, end),
+    /// nr of pooled data buffers, nr of pooled section buffers)`.
+    #[cfg(etherparse_verif)]
+    #[allow(clippy::type_complexity)]
+    pub fn verif_snapshot(
+        &self,
+    ) -> (
+        Vec<(std::string::String, u8, Vec<u8>, Vec<IpFragRange>, Option<u16>)>,
+        usize,
+        usize,
+    ) {
+        let mut active: Vec<_> = self
+            .active
+            .iter()
+            .map(|(k, (buf, _))| {
+                let mut sections = buf.sections().clone();
+                sections.sort();
+                (
+                    std::format!("{:?}", k),
+                    buf.ip_number().0,
+                    buf.data().clone(),
+                    sections,
+                    buf.end(),
+                )
+            })
+            .collect();
+        active.sort();
+        (
+            active,
+            self.finished_data_bufs.len(),
+            self.finished_section_bufs.len(),
+        )
+    }
+
     /// Retains only the elements specified by the predicate.
     pub fn retain<F>(&mut self, f: F)
     where
